@@ -544,4 +544,271 @@ theorem C05_partial (F : Fl) (G : Grid) (n : ℕ) (r : ℚ) (B : Budget F G (n +
   rw [a, b]
 
 
+/-! ### negation witnesses: the pinned variants are not correct for every admissible rounding -/
+
+/-- a (coarse) admissible rounding: exact everywhere except that `[0.1, 0.1001)` is rounded up to `0.1001`
+— the analogue of `0.1` not being a binary fraction. Relative error ≤ 1/1000. -/
+def flWf (x : ℚ) : ℚ := if 1/10 ≤ x ∧ x < 1/10 + 1/10000 then 1/10 + 1/10000 else x
+
+def flW : Fl where
+  fl := flWf
+  u := 1/1000
+  u_nonneg := by norm_num
+  idem := by
+    intro x; unfold flWf
+    by_cases h : 1/10 ≤ x ∧ x < 1/10 + 1/10000
+    · rw [if_pos h, if_neg]; intro h'; exact absurd h'.2 (lt_irrefl _)
+    · rw [if_neg h, if_neg h]
+  mono := by
+    intro x y hxy; unfold flWf
+    by_cases hx : 1/10 ≤ x ∧ x < 1/10 + 1/10000 <;> by_cases hy : 1/10 ≤ y ∧ y < 1/10 + 1/10000
+    · rw [if_pos hx, if_pos hy]
+    · rw [if_pos hx, if_neg hy]
+      by_contra hlt
+      exact hy ⟨le_trans hx.1 hxy, not_le.mp hlt⟩
+    · rw [if_neg hx, if_pos hy]; linarith [hy.2]
+    · rw [if_neg hx, if_neg hy]; exact hxy
+  err := by
+    intro x; unfold flWf
+    by_cases hx : 1/10 ≤ x ∧ x < 1/10 + 1/10000
+    · rw [if_pos hx, abs_of_nonneg (by linarith [hx.2]), abs_of_nonneg (by linarith [hx.1])]
+      linarith [hx.1, hx.2]
+    · rw [if_neg hx, sub_self, abs_zero]; positivity
+
+/-- the grid `0, 0.1, 0.2, …`. -/
+def G01 : Grid where
+  S := 0
+  H := 1/10
+  p := 1
+  H_pos := by norm_num
+  decS := ⟨0, by simp⟩
+  decH := ⟨1, by simp [pow10]⟩
+
+theorem budget_W : Budget flW G01 4 (1/500) := by
+  have hh : G01.h flW = 1001/10000 := by
+    simp only [Grid.h, flW, G01, flWf]; norm_num
+  have hs : G01.s flW = 0 := by
+    simp only [Grid.s, flW, G01, flWf]; norm_num
+  refine ⟨?_, ?_, ?_, ?_, ?_⟩
+  · rw [hh]; norm_num
+  · rw [hh]; simp only [Qerr, flW, G01]; norm_num
+  · rw [hh, hs]; simp only [Derr, flW, G01, pow10]; norm_num
+  · rw [hh]; simp only [Grid.M, flW, G01]; norm_num
+  · simp only [Grid.M, flW, G01]; norm_num
+
+/-- the hypotheses of `C05_full` are satisfiable by a rounding that is not exact (non-vacuity), and on
+it the repaired variant does produce the grid `label 0 … label 3`. -/
+example : simTimes ⟨true, true, true⟩ flW.fl 5 (G01.s flW) (label flW G01 3) (G01.h flW) G01.p
+    = some [0, 1001/10000, 2/10, 3/10] := by decide +kernel
+
+example : C05_full ⟨true, true, true⟩ := C05_full_of_good _ (by decide)
+
+/-- bare `step + dt` as session clock: with the rounding `flW` the third clock value is `0.2002`, not the
+label `0.2`. -/
+theorem C05_witness_session (c : Cfg) (h : c.stepClockNormalised = false) : ¬ C05_full c := by
+  intro hf
+  have h3 := (hf flW G01 3 (1/500) budget_W 5 (by norm_num)).2.2.1 3
+  rcases c with ⟨a, b, d⟩
+  simp only at h
+  subst h
+  revert h3
+  cases a <;> cases b <;> decide +kernel
+
+/-- `until + dt` as exclusive bound of the batch run: with `flW`, `0.2 + 0.1001 = 0.3001 > 0.3`, a fourth row. -/
+theorem C05_witness_simBound (c : Cfg) (h : c.simBoundInclusive = false) : ¬ C05_full c := by
+  intro hf
+  have h3 := (hf flW G01 2 (1/500) (by
+    have B := budget_W
+    exact ⟨B.h_pos, lt_of_le_of_lt (Qerr_mono _ _ _ _ _ _ _ flW.u_nonneg B.h_pos G01.H_pos (by norm_num)) B.hQ,
+      lt_of_le_of_lt (Derr_mono _ _ _ _ _ _ _ flW.u_nonneg B.h_pos G01.H_pos (by norm_num)) B.hD,
+      by have := B.hR; simp only [Grid.M, flW, G01] at this ⊢; norm_num at this ⊢; linarith,
+      by simp only [Grid.M, flW, G01]; norm_num⟩) 4 (by norm_num)).1
+  rcases c with ⟨a, b, d⟩
+  simp only at h
+  subst h
+  revert h3
+  cases b <;> cases d <;> decide +kernel
+
+/-- the same bound in `Element.plot`. -/
+theorem C05_witness_plotBound (c : Cfg) (h : c.plotBoundInclusive = false) : ¬ C05_full c := by
+  intro hf
+  have h3 := (hf flW G01 2 (1/500) (by
+    have B := budget_W
+    exact ⟨B.h_pos, lt_of_le_of_lt (Qerr_mono _ _ _ _ _ _ _ flW.u_nonneg B.h_pos G01.H_pos (by norm_num)) B.hQ,
+      lt_of_le_of_lt (Derr_mono _ _ _ _ _ _ _ flW.u_nonneg B.h_pos G01.H_pos (by norm_num)) B.hD,
+      by have := B.hR; simp only [Grid.M, flW, G01] at this ⊢; norm_num at this ⊢; linarith,
+      by simp only [Grid.M, flW, G01]; norm_num⟩) 4 (by norm_num)).2.1
+  rcases c with ⟨a, b, d⟩
+  simp only at h
+  subst h
+  revert h3
+  cases a <;> cases d <;> decide +kernel
+
+/-! The same three facts on IEEE doubles (Lean `Float`, kernel-evaluated; witnesses only — the harness
+replays these numbers on the implementation). -/
+
+/-- bare session clock, dt = 0.1: after three additions the clock is not the label 0.3 … -/
+theorem float_witness_session : (((0.0 : Float) + 0.1 + 0.1 + 0.1) == 0.3) = false := by decide +kernel
+/-- … and after eight it is below 0.8. -/
+theorem float_witness_session8 :
+    (((0.0 : Float) + 0.1 + 0.1 + 0.1 + 0.1 + 0.1 + 0.1 + 0.1 + 0.1) < 0.8) = true := by decide +kernel
+/-- `until + dt` for until = 0.2, dt = 0.1 exceeds the label 0.3, which therefore passes `i < stop`. -/
+theorem float_witness_bound : (((0.2 : Float) + 0.1) > 0.3) = true := by decide +kernel
+
+/-- the budget of the theorems for IEEE doubles (`u = 2^-53`) on the largest lattice grid of the check
+(start 1000.1, dt 0.001, 201 steps, one-addition error r = 10^-12): satisfied with orders of magnitude
+to spare (the float constants s, h are bounded by their error intervals). -/
+theorem budget_nonvacuous :
+    let e : ℚ := 1 / 2 ^ 53
+    let S : ℚ := 10001 / 10
+    let H : ℚ := 1 / 1000
+    let N : ℚ := 201
+    let r : ℚ := 1 / 10 ^ 12
+    ∀ s h : ℚ, |s - S| ≤ e * |S| → |h - H| ≤ e * H →
+      e * ((1 + e) * (|S| + N * H) + h) + e * (|S| + N * H) + e * H ≤ r ∧ 2 * e * (|S| + N * H) < H ∧
+      Derr e S H s h N < 1 / (2 * 10 ^ 3) := by
+  intro e S H N r s h hs hh
+  have hS : |S| = 10001 / 10 := by simp only [S]; rw [abs_of_pos]; norm_num
+  rw [hS] at hs ⊢
+  have h1 := abs_le.mp hh
+  have h2 := abs_le.mp hs
+  have hs' : |s| ≤ 1001 := by
+    rw [abs_le]; constructor <;> (norm_num [e, S] at h2 ⊢; linarith [h2.1, h2.2])
+  have hh' : h ≤ 2 / 1000 := by norm_num [e, H] at h1 ⊢; linarith [h1.2]
+  have hh0 : 0 ≤ h := by norm_num [e, H] at h1 ⊢; linarith [h1.1]
+  refine ⟨?_, ?_, ?_⟩
+  · norm_num [e, H, N, r]; linarith
+  · norm_num [e, H, N]
+  · unfold Derr
+    rw [hS]
+    norm_num [e, H, N]
+    nlinarith
+
+/-! ### `precision_and_scale` on decimal digit strings -/
+
+theorem stripZeros_pow (j q : ℕ) (hq : q % 10 ≠ 0) : stripZeros (10 ^ j * q) = q := by
+  induction j with
+  | zero =>
+    rw [stripZeros]
+    simp only [pow_zero, one_mul]
+    rw [if_neg]; intro h; exact hq h.1
+  | succ j ih =>
+    rw [stripZeros]
+    have hqpos : 0 < q := by omega
+    have h1 : 10 ^ (j + 1) * q = 10 * (10 ^ j * q) := by rw [pow_succ]; ring
+    have hpos : 0 < 10 ^ j * q := Nat.mul_pos (by positivity) hqpos
+    rw [h1, if_pos ⟨by omega, by omega⟩, Nat.mul_div_cancel_left _ (by norm_num : 0 < 10)]
+    exact ih
+
+theorem ilog10_eq (p : ℕ) : ∀ n : ℕ, 10 ^ p ≤ n → n < 10 ^ (p + 1) → ilog10 n = p := by
+  induction p with
+  | zero =>
+    intro n _ h2
+    rw [ilog10, if_pos (by simpa using h2)]
+  | succ p ih =>
+    intro n h1 h2
+    rw [ilog10]
+    have h10 : 10 ≤ n := by
+      have : 10 ^ 1 ≤ 10 ^ (p + 1) := Nat.pow_le_pow_right (by norm_num) (by omega)
+      omega
+    rw [if_neg (by omega)]
+    have e1 : 10 ^ (p + 1) = 10 ^ p * 10 := pow_succ 10 p
+    have e2 : 10 ^ (p + 1 + 1) = 10 ^ (p + 1) * 10 := pow_succ 10 (p + 1)
+    rw [ih (n / 10) (by rw [Nat.le_div_iff_mul_le (by norm_num)]; omega)
+      (by rw [Nat.div_lt_iff_lt_mul (by norm_num)]; omega)]
+
+/-- **scale_correct** on decimal digit strings: the number written `ip.f` with `p` fraction digits
+(`f < 10^p`, last digit non-zero unless there is no fraction), at most 14 significant digits in all:
+`scale` returns exactly the number of decimals `p`. -/
+theorem scale_correct (ip f p : ℕ) (hf : f < 10 ^ p) (hmin : p = 0 ∨ f % 10 ≠ 0)
+    (hmag : (if ip = 0 then 1 else ilog10 ip + 1) + p ≤ 14) :
+    scale ((ip : ℚ) + (f : ℚ) / (10 : ℚ) ^ p) = p := by
+  have hp10 : (0 : ℚ) < (10 : ℚ) ^ p := by positivity
+  have hfr0 : 0 ≤ (f : ℚ) / (10 : ℚ) ^ p := by positivity
+  have hfr1 : (f : ℚ) / (10 : ℚ) ^ p < 1 := by
+    rw [div_lt_one hp10]; exact_mod_cast hf
+  set x : ℚ := (ip : ℚ) + (f : ℚ) / (10 : ℚ) ^ p with hx
+  have hx0 : 0 ≤ x := by positivity
+  have habs : absQ x = x := by rw [absQ_eq, abs_of_nonneg hx0]
+  have hfloor : x.floor = (ip : ℤ) := by
+    show ⌊x⌋ = (ip : ℤ)
+    rw [Int.floor_eq_iff]; constructor
+    · push_cast; linarith
+    · push_cast; linarith
+  unfold scale precisionAndScale
+  simp only [habs, hfloor, Int.toNat_natCast]
+  set mag := (if ip = 0 then 1 else ilog10 ip + 1) with hmagd
+  by_cases hm : mag ≥ maxDigits
+  · rw [if_pos hm]
+    simp only [maxDigits] at hm
+    show 0 = p
+    omega
+  · rw [if_neg hm]
+    simp only [maxDigits] at hm ⊢
+    have hj : 14 - mag = (14 - mag - p) + p := by omega
+    set j := 14 - mag - p with hjd
+    have hfrac : x - (ip : ℚ) = (f : ℚ) / (10 : ℚ) ^ p := by rw [hx]; ring
+    have hprod : (((10 ^ (14 - mag) : ℕ) : ℚ)) * (x - (ip:ℚ)) + 1 / 2 = ((10 ^ j * f : ℕ) : ℚ) + 1 / 2 := by
+      rw [hfrac, hj]; push_cast; rw [pow_add]; field_simp
+    have hfl : ((((10 ^ (14 - mag) : ℕ) : ℚ)) * (x - (ip:ℚ)) + 1 / 2).floor = ((10 ^ j * f : ℕ) : ℤ) := by
+      rw [hprod]
+      show ⌊((10 ^ j * f : ℕ) : ℚ) + 1 / 2⌋ = ((10 ^ j * f : ℕ) : ℤ)
+      rw [Int.floor_eq_iff]; constructor
+      · push_cast; linarith
+      · push_cast; linarith
+    rw [hfl, Int.toNat_natCast]
+    have hfd : 10 ^ (14 - mag) + 10 ^ j * f = 10 ^ j * (10 ^ p + f) := by
+      rw [hj, pow_add]; ring
+    rw [hfd]
+    have hq : (10 ^ p + f) % 10 ≠ 0 := by
+      rcases hmin with h0 | h1
+      · subst h0; simp at hf; subst hf; simp
+      · have : p = (p - 1) + 1 := by
+          rcases Nat.eq_zero_or_pos p with h | h
+          · subst h; simp at hf; subst hf; simp at h1
+          · omega
+        rw [this, pow_succ]; omega
+    rw [stripZeros_pow j _ hq]
+    exact ilog10_eq p _ (by omega) (by rw [pow_succ]; omega)
+
+
+/-- hence the precision the code computes makes the decimal a multiple of `10^-precision` … -/
+theorem dec_of_scale (ip f p : ℕ) (hf : f < 10 ^ p) (hmin : p = 0 ∨ f % 10 ≠ 0)
+    (hmag : (if ip = 0 then 1 else ilog10 ip + 1) + p ≤ 14) :
+    ∃ m : ℤ, (ip : ℚ) + (f : ℚ) / (10 : ℚ) ^ p = m / pow10 (scale ((ip : ℚ) + (f : ℚ) / (10 : ℚ) ^ p)) := by
+  rw [scale_correct ip f p hf hmin hmag, pow10_eq]
+  refine ⟨(ip : ℤ) * 10 ^ p + f, ?_⟩
+  have hp10 : (0 : ℚ) < (10 : ℚ) ^ p := by positivity
+  push_cast; field_simp
+
+/-- … and so does every larger precision (`max (scale start) (scale dt)`): the `decS`/`decH` fields of `Grid`. -/
+theorem dec_mono (x : ℚ) (p q : ℕ) (hpq : p ≤ q) (h : ∃ m : ℤ, x = m / pow10 p) : ∃ m : ℤ, x = m / pow10 q := by
+  obtain ⟨m, hm⟩ := h
+  obtain ⟨d, rfl⟩ := Nat.exists_eq_add_of_le hpq
+  refine ⟨m * 10 ^ d, ?_⟩
+  rw [hm, pow10_eq, pow10_eq, pow_add]
+  have hp10 : (0 : ℚ) < (10 : ℚ) ^ p := by positivity
+  have hq10 : (0 : ℚ) < (10 : ℚ) ^ d := by positivity
+  push_cast; field_simp
+
+example : scale ((1000 : ℚ) + 1 / 10 ^ 1) = 1 := by
+  have := scale_correct 1000 1 1 (by norm_num) (Or.inr (by norm_num)) (by simp [ilog10])
+  simpa using this
+
+#print axioms normalize_near
+#print axioms timerange_spec
+#print axioms route_independent
+#print axioms clock_normalised_exact
+#print axioms labels_increasing
+#print axioms C05_full_of_good
+#print axioms C05_partial
+#print axioms C05_witness_session
+#print axioms C05_witness_simBound
+#print axioms C05_witness_plotBound
+#print axioms float_witness_session
+#print axioms float_witness_bound
+#print axioms budget_nonvacuous
+#print axioms scale_correct
+#print axioms dec_of_scale
+
 end Bptk.C05
